@@ -100,11 +100,9 @@ func checkC03(c c03Case, rec *Rec) *Violation {
 	if err != nil {
 		return viol(id, "C03:parse", "mask rule %q rejected: %v", txt, err)
 	}
-	if got := rule.VerifPattern(); got != c.Pattern && !(strings.HasSuffix(c.Pattern, "/*") && got == c.Pattern[:len(c.Pattern)-2]+"^") {
-		// the options delimiter was found somewhere else: not the pattern we meant
-		rec.Label("skipped:pattern-split-differs")
-		return nil
-	}
+	// By construction the options delimiter is the last '$' of the text, so the
+	// rule's pattern is c.Pattern (with a trailing "/*" rewritten to "^"); the
+	// reference is always computed from c.Pattern itself.
 	ref := parseRefMask(c.Pattern)
 	re, status := rule.VerifRegexp()
 	if status == -1 {
